@@ -203,6 +203,11 @@ class ActorInterp(Interp):
             return
         super().stmt(s)
 
+    def eval(self, e: ast.AST | None) -> Any:
+        if isinstance(e, ast.Subscript) and isinstance(e.slice, ast.Slice):
+            return eval_slice(self, e)
+        return super().eval(e)
+
     # -------------------------------------------------------------- names / attributes
     def unknown_name(self, ident: str, node: ast.AST) -> Any:
         mod = self.cls.module
@@ -397,6 +402,9 @@ class ActorInterp(Interp):
             head = dotted.split(".", 1)[0]
             if head in ("_logger", "logging", "_log"):
                 return None
+            res = pure_builtin(self, dotted, pos, kw, node)
+            if res is not _NOT_BUILTIN:
+                return res
             if last in ("Request", "Bounds", "SystemBounds"):
                 target = self.prog.resolve_name(self.cls.module, dotted)
                 if isinstance(target, ClassInfo):
@@ -462,6 +470,37 @@ class ActorInterp(Interp):
 
 
 _MISSING = Sym("<missing>")
+_NOT_BUILTIN = Sym("<not a modelled builtin>")
+
+
+def eval_slice(interp: Interp, e: ast.Subscript) -> Any:
+    """`seq[a:b:c]` on a concrete list / tuple with concrete integer bounds."""
+    base = interp.eval(e.value)
+    sl = e.slice
+    assert isinstance(sl, ast.Slice)
+    parts = [interp.eval(x) if x is not None else None for x in (sl.lower, sl.upper, sl.step)]
+    if isinstance(base, (list, tuple)) and all(x is None or (isinstance(x, int) and not isinstance(x, bool))
+                                               for x in parts):
+        return base[slice(*parts)]
+    raise AnalysisError(f"slice of {type(base).__name__} not interpretable (line {e.lineno})")
+
+
+def pure_builtin(interp: Interp, name: str, pos: list[Any], kw: dict[str, Any], node: ast.AST) -> Any:
+    """all / any / len / bool / list / tuple / sorted-free builtins over concrete sequences whose
+    elements the domain can judge (a loop written as a comprehension / any / all)."""
+    if kw or len(pos) != 1:
+        return _NOT_BUILTIN
+    v = pos[0]
+    if name in ("all", "any") and isinstance(v, (list, tuple)):
+        truths = [interp.truth(x, node) for x in v]
+        return all(truths) if name == "all" else any(truths)
+    if name == "len" and isinstance(v, (list, tuple, dict, set, frozenset)):
+        return len(v)
+    if name == "bool":
+        return interp.truth(v, node)
+    if name in ("list", "tuple") and isinstance(v, (list, tuple)):
+        return list(v) if name == "list" else tuple(v)
+    return _NOT_BUILTIN
 
 
 def _opaque_pair(a: Any, b: Any) -> bool:
@@ -593,6 +632,8 @@ class ResolverInterp(Interp):
     def eval(self, e: ast.AST | None) -> Any:
         if isinstance(e, ast.IfExp):
             self.last_test = e.test
+        if isinstance(e, ast.Subscript) and isinstance(e.slice, ast.Slice):
+            return eval_slice(self, e)
         return super().eval(e)
 
     # -------------------------------------------------------------- names / attributes
@@ -734,6 +775,10 @@ class ResolverInterp(Interp):
                 return None
             if fn[1] == "set" and not pos and not kw:
                 return set()
+            if not (fn[1] == "len" and len(pos) == 1 and pos[0] is self.bucket_obj):
+                res = pure_builtin(self, fn[1], pos, kw, node)
+                if res is not _NOT_BUILTIN:
+                    return res
             if head == "Power":
                 return Sym(f"{fn[1]}(...)")  # some other power value, never the stored / fresh one
             if fn[1] == "len" and len(pos) == 1 and pos[0] is self.bucket_obj:
@@ -869,7 +914,8 @@ def resolve_roles(prog: Program, cls: ClassInfo) -> dict[str, FuncInfo]:
 
 def opaque_for(roles: dict[str, FuncInfo], me: FuncInfo) -> dict[str, str]:
     """The role holders other than the analysed function (name -> role)."""
-    return {fi.name: role for role, fi in roles.items() if role != "run" and fi is not me}
+    return {fi.name: role for role, fi in roles.items() if role != "run" and fi is not me
+            and not (role == "calc" and fi is roles["su"])}
 
 
 # ------------------------------------------------------------------------------ control builders
